@@ -154,7 +154,7 @@ func (ucr *UnsignedChunkReader) extractChunkSize() (int64, error) {
 	line = strings.TrimSpace(line)
 
 	chunkSize, err := strconv.ParseInt(line, 16, 64)
-	if err != nil {
+	if err != nil || chunkSize < 0 {
 		return 0, errMalformedEncoding
 	}
 
